@@ -32,7 +32,7 @@ namespace {
 
 struct Cover {
     std::atomic<uint64_t> lockSections{0}, poolTasks{0}, poolStarts{0}, poolUpdates{0}, poolStops{0}, poolExpiryCycles{0}, poolClears{0};
-    std::atomic<uint64_t> routerOps{0}, routerCallbacks{0}, threadStarts{0}, threadPolls{0};
+    std::atomic<uint64_t> routerThrows{0}, routerNestedQueries{0}, routerOps{0}, routerCallbacks{0}, threadStarts{0}, threadPolls{0};
     uint64_t workloads[4] = {0, 0, 0, 0};
     uint64_t maxThreads = 0;
     std::vector<uint64_t> fps;
@@ -132,6 +132,11 @@ void wlPool(rt::Rng rng) {
 // ---------------------------------------------------------------- 2: ConcurrentSubjectRouter
 void wlRouter(rt::Rng rng) {
     auto router = std::make_unique<ConcurrentSubjectRouter>();
+    // a second router that observers of the first one consult from inside their callbacks while other threads
+    // restructure it: whatever the first router's lock keeps per thread must not leak into the second one
+    auto registry = std::make_unique<ConcurrentSubjectRouter>();
+    struct Boom {};
+    static thread_local bool tlsThrow = false;   // observers throw when the notifying thread asks for it
     static const char *names[] = {"a", "b", "c"};
     // libstdc++ fills its ctype narrow/widen cache lazily and unsynchronised while a std::regex is
     // compiled: warm it up for the one regex the workload uses before any thread exists
@@ -145,7 +150,7 @@ void wlRouter(rt::Rng rng) {
     for (int t = 0; t < nT; ++t)
         th.emplace_back([&, seed = rng.next()] {
             rt::Rng r(seed);
-            std::vector<std::unique_ptr<USubscription>> mine;
+            std::vector<std::unique_ptr<USubscription>> mine, regMine;
             auto key = [&](bool wild) {
                 RoutingKeyBuilder b;
                 int depth = (int) r.range(1, 2);
@@ -155,8 +160,30 @@ void wlRouter(rt::Rng rng) {
             while (!go.load()) sched_yield();
             for (int k = 0; k < per; ++k) {
                 unsigned q = (unsigned) r.below(100);
-                if (q < 40) router->notify(key(true));
-                else if (q < 62) mine.push_back(std::make_unique<USubscription>(router->subscribe(key(false), [&hits] { hits.fetch_add(1, std::memory_order_relaxed); C.routerCallbacks.fetch_add(1, std::memory_order_relaxed); })));
+                if (q < 36) router->notify(key(true));
+                else if (q < 40) {
+                    tlsThrow = true;
+                    try { router->notify(key(true)); } catch (const Boom &) { C.routerThrows.fetch_add(1, std::memory_order_relaxed); }
+                    tlsThrow = false;
+                }
+                else if (q < 62) {
+                    unsigned kind = (unsigned) r.below(10);
+                    auto *reg = registry.get();
+                    if (kind < 6) mine.push_back(std::make_unique<USubscription>(router->subscribe(key(false), [&hits] { hits.fetch_add(1, std::memory_order_relaxed); C.routerCallbacks.fetch_add(1, std::memory_order_relaxed); })));
+                    else if (kind < 8) mine.push_back(std::make_unique<USubscription>(router->subscribe(key(false), [&hits] { C.routerCallbacks.fetch_add(1, std::memory_order_relaxed); if (tlsThrow) throw Boom{}; hits.fetch_add(1, std::memory_order_relaxed); })));
+                    else mine.push_back(std::make_unique<USubscription>(router->subscribe(key(false), [&hits, reg] {
+                        C.routerCallbacks.fetch_add(1, std::memory_order_relaxed);
+                        C.routerNestedQueries.fetch_add(1, std::memory_order_relaxed);
+                        hits.fetch_add((long) reg->depth() + (reg->exists(RoutingKeyBuilder{}.level(std::string("a")).build()) ? 1 : 0), std::memory_order_relaxed);
+                    })));
+                }
+                else if (q < 66) {
+                    // the registry changes meanwhile
+                    unsigned kind = (unsigned) r.below(3);
+                    if (kind == 0) regMine.push_back(std::make_unique<USubscription>(registry->subscribe(key(false), [&hits] { hits.fetch_add(1, std::memory_order_relaxed); })));
+                    else if (kind == 1) { if (!regMine.empty()) { (*regMine.back())->unsubscribe(); regMine.pop_back(); } }
+                    else registry->shrink(key(true));
+                }
                 else if (q < 80) { if (!mine.empty()) { size_t i = r.below(mine.size()); (*mine[i])->unsubscribe(); mine.erase(mine.begin() + (long) i); } }
                 else if (q < 88) router->shrink(key(true));
                 else if (q < 95) hits.fetch_add(router->exists(key(true)) ? 1 : 0, std::memory_order_relaxed);
@@ -165,6 +192,7 @@ void wlRouter(rt::Rng rng) {
                 yieldSome(r);
             }
             for (auto &s : mine) (*s)->unsubscribe();
+            for (auto &s : regMine) (*s)->unsubscribe();
         });
     go.store(1);
     for (auto &x : th) x.join();
@@ -229,7 +257,7 @@ int main(int argc, char **argv) {
                    .kv("runsResource", C.workloads[0]).kv("runsPool", C.workloads[1]).kv("runsRouter", C.workloads[2]).kv("runsThread", C.workloads[3])
                    .kv("lockSections", C.lockSections.load()).kv("poolTasksRun", C.poolTasks.load()).kv("poolStarts", C.poolStarts.load())
                    .kv("poolUpdates", C.poolUpdates.load()).kv("poolStops", C.poolStops.load()).kv("poolClears", C.poolClears.load())
-                   .kv("poolExpiryCycles", C.poolExpiryCycles.load()).kv("routerOps", C.routerOps.load()).kv("routerCallbacks", C.routerCallbacks.load())
+                   .kv("poolExpiryCycles", C.poolExpiryCycles.load()).kv("routerOps", C.routerOps.load()).kv("routerCallbacks", C.routerCallbacks.load()).kv("routerDeliveriesEndedByException", C.routerThrows.load()).kv("routerQueriesOfASecondRouterFromCallbacks", C.routerNestedQueries.load())
                    .kv("threadStarts", C.threadStarts.load()).kv("threadPolls", C.threadPolls.load()).kv("maxThreads", C.maxThreads)
                    .raw("samples", rt::jsonArray(C.samples, false)));
     return 0;
